@@ -61,7 +61,7 @@ pub fn def() -> CheckDef {
             name: "roundtrip",
             rule: "build -> build_bytes_vec -> parse -> observe == model",
             strategy,
-            cases: (40_000, 2_000_000),
+            cases: (300_000, 4_000_000),
             check,
         })],
     }
